@@ -9,6 +9,7 @@ import DimodProofs.C03Mixin
 import DimodProofs.C03PyFix
 import DimodProofs.C03Front
 import Properties.C05
+import DimodProofs.C03Reindex
 
 /-! # C03 — fixing a variable equals substituting its value everywhere
 
@@ -422,5 +423,57 @@ example : let m : QmL Rat := { qb := { lin := [1, 2], adj := none, off := 0 },
                                info := [⟨.integer, 0, 9⟩, ⟨.integer, 0, 9⟩], labels := [.int 0, .int 1] }
     let r := m.fixVariablesFront (.iterator [(.int 1, 3), (.int 0, 5)])
     (r.1.1.qb.off, r.1.2, r.1.1.labels, r.2.pairs) = (11, true, [], []) := by decide +kernel
+
+
+/-! ## round 8 — in-place removal on expressions in ANY private variable order: the C03 step is the projection of the
+    `indices_`-keeping model
+
+The C03 theorems above (`cqm_fix_inplace_eval`, …) are about `En.Expr.reindexVariables`, which finds the removed variable by
+SEARCHING `variables_`.  The code looks it up in `indices_` and repairs that map with the three loops of `reindex_variables`
+(C05's model `Expr.reindex`; `ExprReads.reindexGen` = the same over the guards regenerated from expression.h).  On every state a
+history of public CQM operations reaches — objective / constraints written descending, interleaved, successor first … — the
+two agree on `variables_` and on the base model, so the substitution theorems speak about what the code computes, and (C01
+`reindex_keeps_label_reads`) the label-based accessors keep reporting the coefficients of that result. -/
+
+section IndicesModel
+open ExprReads CqmP
+
+/-- one removal step: C05's model (with `indices_`, over the generated guards), projected to `variables_` + base model, is the
+    C03 step -/
+theorem removal_step_is_projection_of_indices_model (e : Expr) (hwf : ExprWF e) (hs : ExprSorted e) (v : Nat) :
+    toEn (reindexGen e v) = (toEn e).reindexVariables v := by
+  rw [reindexGen_eq]; exact toEn_reindex hwf hs v
+
+/-- … on the objective and every constraint of every state a history of public CQM operations reaches -/
+theorem removal_step_is_projection_after_history (ops : List Cqm.Op) (hops : ∀ op ∈ ops, OpOK op) (v : Nat) :
+    toEn (reindexGen (({} : Cqm).run ops).obj v) = (toEn (({} : Cqm).run ops).obj).reindexVariables v ∧
+    ∀ c ∈ (({} : Cqm).run ops).cons, toEn (reindexGen c.e v) = (toEn c.e).reindexVariables v := by
+  have hwf := C05.history_inv ops hops
+  have hs := C05.history_sorted ops hops
+  exact ⟨removal_step_is_projection_of_indices_model _ hwf.obj hs.1 v,
+         fun c hc => removal_step_is_projection_of_indices_model _ (hwf.cons c hc) (hs.2 c hc) v⟩
+
+/-- the state after the step is again one the theorems apply to (so a `fix_variables(…, inplace=True)` loop stays inside) -/
+theorem removal_step_keeps_indices_invariant (e : Expr) (hwf : ExprWF e) (hs : ExprSorted e) (v : Nat) :
+    ExprWF (reindexGen e v) ∧ ExprSorted (reindexGen e v) := by
+  rw [reindexGen_eq]; exact ⟨reindex_wf hwf v, reindex_sorted hs v⟩
+
+/-- the neighbourhood update of the two models agrees on sorted neighbourhoods: C05's filter-and-decrement is C03's backwards
+    walk of `remove_variable` -/
+theorem neighbourhood_removal_models_agree (i : Nat) (nb : List (Nat × Rat)) (hs : (nb.map Prod.fst).Pairwise (· < ·)) :
+    QB.shiftNbh i nb = QMB.removeFromNbh i nb :=
+  shiftNbh_eq_removeFromNbh i nb hs
+
+/-- the objective `3·x₁ + 5·x₀ + 2·x₀x₁` written with `x₁` first; removing variable 0: both models leave `variables_ = [0]`,
+    linear `[3]`, no interaction -/
+example :
+    let e := rebuild 2 [1, 0] [3, 5] [(0, 1, 2)] 0
+    (toEn (reindexGen e 0)).vars = ((toEn e).reindexVariables 0).vars
+    ∧ (toEn (reindexGen e 0)).qb.lin = ((toEn e).reindexVariables 0).qb.lin
+    ∧ (toEn (reindexGen e 0)).qb.adj = ((toEn e).reindexVariables 0).qb.adj
+    ∧ (toEn (reindexGen e 0)).vars = [0] ∧ (reindexGen e 0).qb.lin = [3] ∧ (reindexGen e 0).qb.adj = [[]] := by
+  decide +kernel
+
+end IndicesModel
 
 end C03
